@@ -62,8 +62,10 @@ func ruleSweeperCutoff(c *Check, rule string) {
 		return
 	}
 	_, paths := c.walkFn(rule, fnSweep, WalkConfig{Memo: true,
-		KeepEvent: func(e *Event) bool { return e.Kind == "store" && strings.Contains(e.Addr, "cutoffTS") || e.Kind == "ret" },
-		KeepAtom:  func(a Atom) bool { return false }})
+		KeepEvent: func(e *Event) bool {
+			return e.Kind == "store" && strings.Contains(e.Addr, "cutoffTS") || e.Kind == "ret"
+		},
+		KeepAtom: func(a Atom) bool { return false }})
 	want := "lmdbenv/header.TimestampFromTime((time.Time).Add(time.Now@"
 	ok := false
 	val := ""
@@ -208,7 +210,9 @@ func ruleSweeper(c *Check, rTable, rPrivate, rEffect, rCursor string) {
 
 	// R3: private DBIs only in non-native mode
 	sfn, sp := c.walkFn(rPrivate, fnSweep, WalkConfig{Memo: true,
-		KeepEvent: func(e *Event) bool { return e.Kind == "ret" || e.Kind == "call" && strings.Contains(e.Callee, "lmdb.Env") },
+		KeepEvent: func(e *Event) bool {
+			return e.Kind == "ret" || e.Kind == "call" && strings.Contains(e.Callee, "lmdb.Env")
+		},
 		KeepAtom: func(a Atom) bool {
 			return strings.Contains(a.String(), "schemaTracksChanges") || strings.Contains(a.String(), "HasPrefix")
 		}})
@@ -414,4 +418,88 @@ func ruleLimitScannerResume(c *Check, rule string) {
 		}
 		c.Expect(okc, rule, cn, "the saved cursor is {current key, current value} with the limit flag", "Cursor() does not save the scanner's current key and value", c.P.Pos(cf.Pos()))
 	}
+}
+
+// C13-R7 SLICE-ERROR-ABORTS: a failed slice transaction (LMDB aborted it, its
+// deletions are rolled back) ends the pass with an error. Looking at the
+// resume flag first would continue from a cursor that was advanced past
+// entries whose deletion never happened, or retry a persistently failing
+// slice forever; either way expired markers stay and the pass reports success.
+func ruleSweepSliceErrors(c *Check, rule string) {
+	fn, paths := c.walkFn(rule, fnSweep, WalkConfig{Memo: true,
+		KeepEvent: func(e *Event) bool {
+			return e.Kind == "ret" || e.Kind == "call" && (strings.Contains(e.Callee, "lmdb.Env).Update") || strings.Contains(e.Callee, "SleepContext"))
+		},
+		KeepAtom: func(a Atom) bool {
+			return strings.Contains(a.String(), "lmdb.Env).Update")
+		}})
+	if paths == nil {
+		return
+	}
+	nFail, nOK, bad := 0, 0, 0
+	for i := range paths {
+		p := &paths[i]
+		for _, u := range callsOf(p, "(*lmdb.Env).Update") {
+			okv, f := boolCond(p, "isnil("+u.Res+")", -1)
+			if !f {
+				if p.End == "return" || strings.HasPrefix(p.End, "backedge:") {
+					bad++
+					c.Bad(rule, fnSweep+"/slice-error-examined", "the pass goes on after a slice transaction without having examined its error", c.pathPos(p), describe(c, p))
+				}
+				continue
+			}
+			if okv {
+				nOK++
+				continue
+			}
+			nFail++
+			if !(p.End == "return" && !retIsNilErr(p)) {
+				bad++
+				c.Bad(rule, fnSweep+"/slice-error-aborts", "a failed slice transaction does not end the pass with an error: the pass continues from the advanced cursor (the rolled-back deletions are never redone) or retries the failing slice forever, and finally reports success", c.pathPos(p), describe(c, p))
+			}
+		}
+	}
+	if bad == 0 {
+		c.Ok(rule, fnSweep+"/slice-error-aborts", fmt.Sprintf("on all %d path classes where the slice transaction failed the pass returns the error; %d continue after success", nFail, nOK), c.P.Pos(fn.Pos()))
+	}
+	c.Floor(rule, nFail, 1, "failed-slice paths")
+	c.Floor(rule, nOK, 1, "successful-slice paths")
+}
+
+// CUTOFF-NO-WRAP (C13-R2, C04-R6): cutoffs are computed as now − retention and
+// converted to the unsigned header timestamp. For a retention longer than the
+// time since the epoch the difference is negative; converted unchecked it wraps
+// to the far future and every marker compares older than the cutoff. The
+// conversion must only happen on paths that established a non-negative value.
+func ruleTimestampNoWrap(c *Check, rule string) {
+	name := "lmdbenv/header.TimestampFromTime"
+	fn, paths := c.walkFn(rule, name, WalkConfig{})
+	if paths == nil {
+		return
+	}
+	n, bad := 0, 0
+	for i := range paths {
+		p := &paths[i]
+		if p.End != "return" || len(p.Rets) != 1 {
+			continue
+		}
+		n++
+		r := p.Rets[0]
+		if strings.HasPrefix(r, "const:") {
+			continue
+		}
+		if !strings.HasPrefix(r, "conv:uint64(") {
+			c.Undecided(rule, name, "unexpected result expression "+r, c.pathPos(p))
+			return
+		}
+		inner := strings.TrimSuffix(strings.TrimPrefix(r, "conv:uint64("), ")")
+		if p.State.RelOf("int", inner, "const:0")&LT != 0 {
+			bad++
+			c.Bad(rule, name+"/no-wrap", "a possibly negative nanosecond count ("+inner+") is converted to the unsigned timestamp: a cutoff before 1970 (now − a retention above ~56 years) wraps to the far future and every deletion marker, however young, is older than it", c.pathPos(p), describe(c, p))
+		}
+	}
+	if bad == 0 {
+		c.Ok(rule, name+"/no-wrap", fmt.Sprintf("%d return paths: the signed nanosecond count is converted only where it is known to be ≥ 0; earlier times give 0", n), c.P.Pos(fn.Pos()))
+	}
+	c.Floor(rule, n, 1, "return paths of TimestampFromTime")
 }
